@@ -258,6 +258,9 @@ def run(cx):
     # fragment of a Reliable packet from the resend queue for good
     from props.C04 import inst_fragment_flags
     inst_fragment_flags(cx, "C02.v")
+    # "after which the sender reports nothing pending": every frame the receiver saw is acknowledged once
+    from props.shared import ack_queue_discipline
+    ack_queue_discipline(cx, "C02.w")
     # a Reliable packet is also "skipped" when the receiver turns it into a data-less packet because its
     # allocation counter drifted (what is charged must be what is released, at both ends), when the frame
     # window refuses the sender's resynchronisation after a fully lost window, or when an id comparison
